@@ -563,6 +563,7 @@ pub fn one_case(ctx: &Ctx, i: usize, id: String, stream_name: &str) -> Case {
     let nops = if fixed.is_some() { 2 } else { rng.range(4, 18) as usize };
     let mut setup_done = false;
     let mut swallowed_jack_err = false;
+    let mut tagged_hdr_share = false;
     for k in 0..nops {
         {
             let mut d = dev.borrow_mut();
@@ -868,7 +869,10 @@ pub fn one_case(ctx: &Ctx, i: usize, id: String, stream_name: &str) -> Case {
             // `pcm_xfer` shares its 4-byte stream-id header once per outstanding chunk (read-only for
             // the device); the ledger's "same memory shared twice" heuristic does not apply to it
             if is_xfer && v.contains("overlaps live share") {
-                c.tag("snd:xfer:stream-id-header-shared-per-chunk");
+                if !tagged_hdr_share {
+                    tagged_hdr_share = true;
+                    c.tag("snd:xfer:stream-id-header-shared-per-chunk");
+                }
                 continue;
             }
             c.fail(format!("ledger: {}", v));
